@@ -524,6 +524,7 @@ type Contract struct {
 	Modifies   []SExpr
 	ModifiesAll bool
 	NoInline   bool
+	Fieldwise  bool // field-wise joins and accessor folding (simp.go)
 	Glue       bool // only assert/ensures/frame obligations are generated for this function
 	Nilable    []string
 	Asserts    []AssertAt
@@ -624,7 +625,7 @@ func (sp *Specs) loadSpecFile(path, pkgPath string) error {
 		}
 		first := strings.Fields(trim)[0]
 		switch first {
-		case "func", "spec", "lemma", "axiom", "requires", "ensures", "loop", "inst", "allow_panic", "trusted", "pure", "modifies", "let", "package", "assert", "noinline", "ghost", "reveal", "inline", "glue", "nilable", "owns":
+		case "func", "spec", "lemma", "axiom", "requires", "ensures", "loop", "inst", "allow_panic", "trusted", "pure", "modifies", "let", "package", "assert", "noinline", "ghost", "reveal", "inline", "glue", "nilable", "owns", "fieldwise":
 			clauses = append(clauses, rawClause{trim, i + 1})
 		default:
 			if len(clauses) == 0 {
@@ -775,6 +776,10 @@ func (sp *Specs) loadSpecFile(path, pkgPath string) error {
 			cur.Pure = true
 		case "noinline":
 			cur.NoInline = true
+		case "fieldwise":
+			// engine option for long functions: joins of struct values are built field by field and accessors
+			// of constructor terms are folded (simp.go); meaning-preserving, changes only term shapes
+			cur.Fieldwise = true
 		case "glue":
 			cur.Glue = true
 		case "nilable":
